@@ -123,7 +123,8 @@ class Controller(object):
         msg = msg.strip()
 
         if not msg:
-            self.send_response(None, cid, msg, "error: empty command")
+            self.send_error(None, cid, msg, "empty command",
+                            errno=errors.INVALID_JSON)
         else:
             logger.debug("got message %s", msg)
             self.dispatch((cid, msg))
@@ -172,6 +173,11 @@ class Controller(object):
             return self.send_error(None, cid, msg, "json invalid",
                                    errno=errors.INVALID_JSON)
 
+        if not isinstance(json_msg, dict):
+            return self.send_error(None, cid, msg, "json invalid: the "
+                                   "message must be an object",
+                                   errno=errors.INVALID_JSON)
+
         mid = json_msg.get('id')
         cmd_name = json_msg.get('command')
         properties = json_msg.get('properties', {})
@@ -179,7 +185,7 @@ class Controller(object):
 
         try:
             cmd = self.commands[cmd_name.lower()]
-        except KeyError:
+        except (KeyError, AttributeError):
             error_ = "unknown command: %r" % cmd_name
             return self.send_error(mid, cid, msg, error_, cast=cast,
                                    errno=errors.UNKNOWN_COMMAND)
